@@ -8,7 +8,11 @@ Space: {NXN, SAP_TILE, SAP_SEGMENTED} x all 16 broadphase_filter masks (48 confi
      to it (coincident SAP projections), a cluster with coincident centres; nworld in {1,4} with different poses per world
      (the 4th world has all geoms deep below the plane); plane first (world geom) or last (mocap body after the free bodies),
  (c) rows of N spheres (N = 2,3,6: SAP range/clamp logic, several ngeom values),
- (d) an explicit <pair> whose margin exceeds the geoms' margins.
+ (d) an explicit <pair> whose margin exceeds the geoms' margins,
+ (e) rows of N spheres (N = 3,4) with PER-GEOM margins: every assignment of {0, 4 r} to the N geoms x {straight row along
+     the sweep axis, zigzag row} x 10 worlds (5 spacings x {geom ids ascending, descending along the sweep axis}); the spacings put
+     adjacent / next-but-one / next-but-two pairs inside the zone that one margin covers or that only the SUM of the two
+     margins covers, so that a pair in contact has other geoms sorted between its two members.
 Oracle: differential - the contact multiset of every configuration equals that of (NXN, filter 0), which sends every
 candidate pair to the narrow phase; geom pairs exact, values bit-identical (same narrow-phase code on the same inputs).
 No MuJoCo involved; C04 ties one configuration to MuJoCo.
@@ -28,16 +32,18 @@ LEVEL = "exploration"
 RULE = (
   "enumerate scenes (pair scenes: all type pairs x orientations x margins x {static geom has the lower id, the higher id}, separations from "
   "outside the margin to wholly behind the other geom; 5-geom layouts x type rotations x margins x nworld x {plane first, plane last}; "
-  "sphere rows; explicit pair with large margin); every scene runs ALL 48 (broadphase, filter) configurations and compares each "
+  "sphere rows; explicit pair with large margin; sphere rows with every {0, large} per-geom margin assignment at spacings inside the "
+  "margin zone of one margin / of the sum only); every scene runs ALL 48 (broadphase, filter) configurations and compares each "
   "contact multiset with the unfiltered all-pairs run. non-trivial = the reference run has >=1 contact and >=1 candidate pair "
   "without contact (so filters both keep and reject something); distinct = hash of the scene spec"
 )
 BOUNDS = {
   "quick": "35 type pairs x 2 orientations x 4 (margin,gap) x 8 worlds, static geom first; 35 type pairs x 1 orientation x 1 (margin,gap) x 8 worlds, "
   "static geom last (mocap body for even seeds, static child body for odd seeds); 7 type rotations x 3 layouts x 2 margins x nworld {1,4}, plane first; "
-  "7 type rotations x 3 layouts x 1 margin x nworld 4, plane last; rows N in {2,3,6}; 4 pair-margin scenes; x 48 configs",
+  "7 type rotations x 3 layouts x 1 margin x nworld 4, plane last; rows N in {2,3,6}; 4 pair-margin scenes; "
+  "mixed-margin rows N in {3,4} x 2^N margin assignments x {line, zigzag} x 10 worlds; x 48 configs",
   "thorough": "as quick with 5 orientations and static/moving swap; static geom last on {mocap, static child} x 2 orientations x 4 (margin,gap); "
-  "plane last for all multi scenes; rows N in {2,3,6,9,17,33}",
+  "plane last for all multi scenes; rows N in {2,3,6,9,17,33}; mixed-margin rows N in {3,4,5}",
 }
 ASSUMPTIONS = [
   "differential oracle: (NXN, filter=0) is the reference configuration; contacts keyed by (world, geom pair), sorted by value",
@@ -85,6 +91,11 @@ def scenarios(tier, seed):
     for layout in ("sweep", "ortho"):
       for nworld in (1, 3):
         out.append(dict(fam="row", n=n, layout=layout, nworld=nworld, variant=v))
+  # per-geom margins: every assignment of {0, large} to the N spheres of a row
+  for n in (3, 4) if tier == "quick" else (3, 4, 5):
+    for layout in ("line", "zigzag"):
+      for bits in itertools.product((0, 1), repeat=n):
+        out.append(dict(fam="mixmargin", n=n, layout=layout, margins=list(bits), variant=v))
   return out
 
 
@@ -168,6 +179,41 @@ def _row(scn):
       p = np.array([0.2, 0.1, 0.3]) + axis * spacing * kk
       q += list(p) + [1.0, 0.0, 0.0, 0.0]
     worlds.append(np.array(q))
+  return xml, worlds
+
+
+def _mixmargin(scn):
+  """row of n equal spheres (radius r) on free bodies, geom k with margin 0 or M = 4 r (scn["margins"][k]).
+
+  Centres: base + SWEEP * step * k (+ lateral offset +-1.2 r alternating for "zigzag", where step is halved, so that
+  next-but-one neighbours are as far apart as the neighbours of the straight row while other geoms project between them).
+  Worlds: 5 spacings x {geom ids ascending, descending along the sweep axis}. With D = 2 r + x M the centre distance at which a
+  pair is x M apart surface to surface (contact iff x M <= margin_i + margin_j):
+    D(0.5)      neighbours inside one margin           D(1.5)      neighbours inside the sum of two margins only
+    D(0.5) / 2  next-but-one inside one margin         D(1.5) / 2  next-but-one inside the sum only
+    D(1.5) / 3  next-but-two inside the sum only (all >= 2 r: no penetration in the straight row)
+  """
+  n, v = scn["n"], scn["variant"]
+  r = 0.05 * cs._SCALE[v % 4]
+  big = 4.0 * r
+  bodies = "".join(
+    f'<body name="b{k}"><freejoint/><geom name="g{k}" type="sphere" size="{r:.6g}" margin="{big * scn["margins"][k]:.6g}"/></body>'
+    for k in range(n)
+  )
+  xml = f"<mujoco><worldbody>{bodies}</worldbody></mujoco>"
+  a, _ = _basis()
+  zig = scn["layout"] == "zigzag"
+  worlds = []
+  for step in (2 * r + 0.5 * big, 2 * r + 1.5 * big, r + 0.25 * big, r + 0.75 * big, (2 * r + 1.5 * big) / 3):
+    for rev in (0, 1):
+      q = []
+      for k in range(n):
+        kk = n - 1 - k if rev else k
+        p = np.array([0.2, 0.1, 0.3]) + SWEEP * step * kk * (0.5 if zig else 1.0)
+        if zig:
+          p = p + a * 1.2 * r * (1 if kk % 2 else -1)
+        q += list(p) + [1.0, 0.0, 0.0, 0.0]
+      worlds.append(np.array(q))
   return xml, worlds
 
 
@@ -271,7 +317,7 @@ def execute(scn):
       return dict(ok=True, nontrivial=False, key=util.sha(scn), **b)
     mjm, worlds = b["mjm"], b["qs"]
   else:
-    xml, worlds = {"multi": _multi, "row": _row, "pairmargin": _pairmargin}[fam](scn)
+    xml, worlds = {"multi": _multi, "row": _row, "pairmargin": _pairmargin, "mixmargin": _mixmargin}[fam](scn)
     mjm, err = util.try_load(xml)
     if mjm is None:
       return dict(ok=True, nontrivial=False, outcome="rejected_by_compiler", info=err, key=util.sha(scn))
